@@ -92,8 +92,8 @@ def enum_triples(tier, seed):
 @st.composite
 def reader_cases(draw):
     from vf import strategies as _S
-    via = draw(st.sampled_from(["json"]))
-    model = draw(S.model_specs(S.JSON, 1, 12))
+    via = draw(st.sampled_from(["json", "uvl"]))
+    model = draw(S.model_specs(S.JSON if via == "json" else S.UVL, 1, 12))
     return {"model": model, "lookups": [build.names(model)[0] + "?"], "source": via}
 
 
@@ -265,15 +265,16 @@ def check(case):
     out = []
     model = case["model"]
     fm = build.build(model)
-    if case.get("source") == "json":
+    if case.get("source") in ("json", "uvl"):
         from vf.oracle import Scratch
-        from flamapy.metamodels.fm_metamodel.transformations import JSONReader, JSONWriter
+        import flamapy.metamodels.fm_metamodel.transformations as T
+        wcls, rcls = (T.JSONWriter, T.JSONReader) if case["source"] == "json" else (T.UVLWriter, T.UVLReader)
         with Scratch() as sc:
-            p = sc.path("m.json")
-            w = lib(lambda: JSONWriter(p, fm).transform())
+            p = sc.path("m." + case["source"])
+            w = lib(lambda: wcls(p, fm).transform())
             if isinstance(w, Raised):
-                return out        # writer problems are C05's business
-            fm = lib(lambda: JSONReader(p).transform())
+                return out        # writer problems are C01/C05's business
+            fm = lib(lambda: rcls(p).transform())
             if isinstance(fm, Raised):
                 return out
     else:
@@ -329,7 +330,7 @@ SUBS = [
         essential=["rel:mutex", "rel:cardinal", "rel:other1", "multi-relations-parent", "typed",
                    "ctc:arithmetic", "ctc:aggregate"]),
     Sub("triples-n<=8", check, enum=enum_triples, nontrivial=nontrivial, classes=classes, exhaustive=True),
-    Sub("reader-json", check, gen=lambda tier: reader_cases(), nontrivial=nontrivial, classes=classes,
+    Sub("reader-sourced", check, gen=lambda tier: reader_cases(), nontrivial=nontrivial, classes=classes,
         n={"quick": 20, "thorough": 1000}, shards={"quick": 4, "thorough": 16}),
 ]
 
